@@ -122,7 +122,20 @@ structure ObsErr where
   q : Str
   subject : Str
 
+/-- an OCI spec rendered family by family into canonical strings (harness/merge/spec.go) -/
+structure SpecFamilies where
+  fams : List (String × String)
+  devRules : List String
+
+def decFamilies (j : Json) : Except String SpecFamilies := do
+  let names := ["annotations", "args", "envOrdered", "envSorted", "mounts", "hooks", "rlimits", "devices",
+                "resources", "blockio", "rdt", "cgroupsPath", "oomScoreAdj", "rest"]
+  pure { fams := ← names.mapM (fun n => do pure (n, ← getStr j n)), devRules := ← getStrList j "devRules" }
+
 structure CaseObs where
+  comb : Option SpecFamilies := none
+  seq : Option SpecFamilies := none
+  genErr : String := ""
   err : ObsErr
   adjust : Option Adjustment
   updates : List (Option Update)
@@ -133,7 +146,8 @@ structure CaseObs where
 def decCaseObs (kind : String) (j : Json) : Except String CaseObs := do
   let e ← getObj j "err"
   let views ← getArr j "views"
-  pure { err := { kind := ← getStr e "kind", p := S (getStrD e "p"), q := S (getStrD e "q"), subject := S (getStrD e "subject") },
+  pure { comb := ← optOf j "comb" decFamilies, seq := ← optOf j "seq" decFamilies, genErr := getStrD j "genErr",
+         err := { kind := ← getStr e "kind", p := S (getStrD e "p"), q := S (getStrD e "q"), subject := S (getStrD e "subject") },
          adjust := ← optOf j "adjust" decAdjust,
          updates := ← arrF j "updates" decOptUpdate,
          invoked := ← strsF j "invoked",
